@@ -1,1 +1,154 @@
-Theorem placeholder_removed_later : True. Proof. exact I. Qed. Print Assumptions placeholder_removed_later.
+(* C03 - Handshakes answer only fresh, outstanding challenges.
+   Statements about Model/Handler.v (validated against the real handler by the correspondence run of
+   ./check C03).  [tick c h now d] is the state after the implicit tick of a step (expired timers
+   fired); every theorem is closed by [exact] of a lemma of Proofs/HandlerB_*.v. *)
+From Coq Require Import List NArith Bool.
+From Discv5V Require Import Model.Handler Proofs.HandlerB_Base Proofs.HandlerB_Frame Proofs.HandlerB_Session
+  Proofs.HandlerB_Auth Proofs.HandlerB_Step Proofs.HandlerB_Fresh Proofs.HandlerB_Examples.
+Import ListNotations.
+Local Open Scope N_scope.
+
+(* handshake_needs_challenge: without an outstanding WHOAREYOU sent to exactly (src, from) a handshake
+   packet changes nothing and emits nothing (beyond what the expired timers of the implicit tick did). *)
+Theorem C03_handshake_needs_challenge :
+  forall c h from src n aad sg eph eph_ok rec ct now d,
+  chall_get (src, from) (challenges (hs (tick c h now d))) = None ->
+  step c h (EvInbound from (PHs src n aad sg eph eph_ok rec ct)) now d =
+  (hs (tick c h now d), outs (tick c h now d)).
+Proof. exact handshake_needs_challenge. Qed.
+Print Assumptions C03_handshake_needs_challenge.
+
+(* the tick only lets challenges expire: none before the step is enough *)
+Theorem C03_handshake_needs_challenge_before :
+  forall c h from src n aad sg eph eph_ok rec ct now d,
+  chall_get (src, from) (challenges h) = None ->
+  step c h (EvInbound from (PHs src n aad sg eph eph_ok rec ct)) now d =
+  (hs (tick c h now d), outs (tick c h now d)).
+Proof. exact handshake_needs_challenge_before. Qed.
+Print Assumptions C03_handshake_needs_challenge_before.
+
+(* handshake_consumes_challenge: acceptance (EstOk) and rejection for a reason other than the signature
+   (EstErr) remove the challenge of (src, from); a bad signature keeps it with the same challenge data
+   (the code re-inserts it, which restarts its timer) and leaves the sessions untouched.
+   ChallUniq (at most one challenge per node address) holds in every reachable state. *)
+Theorem C03_handshake_consumes_challenge :
+  forall c h from src n aad sg eph eph_ok rec ct now d,
+  ChallUniq h ->
+  let s0 := tick c h now d in
+  let h' := fst (step c h (EvInbound from (PHs src n aad sg eph eph_ok rec ct)) now d) in
+  match chall_get (src, from) (challenges (hs s0)) with
+  | None => True
+  | Some ch =>
+    match establish c src ch sg eph eph_ok rec with
+    | EstOk _ _ | EstErr => chall_get (src, from) (challenges h') = None
+    | EstBadSig => chall_get (src, from) (challenges h') = Some ch /\ sessions h' = sessions (hs s0)
+    end
+  end.
+Proof. exact handshake_consumes_challenge. Qed.
+Print Assumptions C03_handshake_consumes_challenge.
+
+Theorem C03_challenge_unique_reachable : forall c evs, ChallUniq (fst (run c init_state evs)).
+Proof. exact run_ChallUniq. Qed.
+Print Assumptions C03_challenge_unique_reachable.
+
+(* replay_no_effect: processing the same handshake packet again right away (whatever the first copy
+   did: accepted, rejected, bad signature, no challenge) creates or re-keys no session and reports
+   nothing: the sessions are those left by the implicit tick, the outputs are the tick's. *)
+Theorem C03_replay_no_effect :
+  forall c h from src n aad sg eph eph_ok rec ct now d now2 d2 h1 o1 h2 o2,
+  ChallUniq h ->
+  step c h (EvInbound from (PHs src n aad sg eph eph_ok rec ct)) now d = (h1, o1) ->
+  step c h1 (EvInbound from (PHs src n aad sg eph eph_ok rec ct)) now2 d2 = (h2, o2) ->
+  sessions h2 = sessions (hs (tick c h1 now2 d2)) /\ o2 = outs (tick c h1 now2 d2) /\
+  SessD h1 h2 /\ Forall quiet_out o2.
+Proof. exact replay_no_effect. Qed.
+Print Assumptions C03_replay_no_effect.
+
+(* later replays: a handshake whose id-signature covers other challenge data than the one outstanding
+   now is never accepted (a replayed handshake answers a challenge that was consumed or has expired;
+   it could succeed only if a later WHOAREYOU to the same node address repeated the challenge data,
+   i.e. the 16 random id-nonce bytes and the 16 random IV bytes - see C19) ... *)
+Theorem C03_stale_signature_rejected :
+  forall c remote ch k cd eph' dst eph eph_ok rec se e,
+  cd <> ch_cd ch -> establish c remote ch (Sig k cd eph' dst) eph eph_ok rec <> EstOk se e.
+Proof. exact stale_signature_rejected. Qed.
+Print Assumptions C03_stale_signature_rejected.
+
+(* ... and in general any effect of a handshake packet needs a signature over the data of the challenge
+   outstanding for exactly (src, from) when the packet arrives (C01_incoming_identity). *)
+Theorem C03_effect_needs_outstanding_challenge :
+  forall c h from src n aad sg eph eph_ok rec ct now d h' out,
+  fix_d1 c = true -> ChallOK h ->
+  step c h (EvInbound from (PHs src n aad sg eph eph_ok rec ct)) now d = (h', out) ->
+  (exists o, In o out /\ attributing o) \/ session_changed h h' ->
+  exists ch deadline,
+    In ((src, from), ch, deadline) (challenges h) /\
+    sg = Sig src (ch_cd ch) eph (cfg_local c) /\ eph_ok = true.
+Proof. exact incoming_identity. Qed.
+Print Assumptions C03_effect_needs_outstanding_challenge.
+
+(* whoareyou_needs_inflight: a WHOAREYOU whose nonce is not the nonce of a request in flight changes
+   nothing and emits nothing; if the nonce belongs to a request in flight to another address, nothing
+   is sent or reported and sessions, challenges, queued requests and exemptions are unchanged - the
+   request is taken out and put back (its timer restarts). *)
+Theorem C03_whoareyou_needs_inflight :
+  forall c h from n idn seq cd now d,
+  let s0 := tick c h now d in
+  (nmap_get n (nmap (hs s0)) = None ->
+   step c h (EvInbound from (PWho n idn seq cd)) now d = (hs s0, outs s0)) /\
+  (forall na0, nmap_get n (nmap (hs s0)) = Some na0 -> snd na0 <> from ->
+   let h' := fst (step c h (EvInbound from (PWho n idn seq cd)) now d) in
+   snd (step c h (EvInbound from (PWho n idn seq cd)) now d) = outs s0 /\
+   sessions h' = sessions (hs s0) /\ challenges h' = challenges (hs s0) /\
+   pending h' = pending (hs s0) /\ expected h' = expected (hs s0) /\
+   h' = match snd (ar_remove_by_nonce (hs s0) n) with
+        | Some (na, r) => ar_insert c (fst (ar_remove_by_nonce (hs s0) n)) na r now
+        | None => fst (ar_remove_by_nonce (hs s0) n)
+        end).
+Proof. exact whoareyou_needs_inflight. Qed.
+Print Assumptions C03_whoareyou_needs_inflight.
+
+(* single_handshake_per_request: if the request the WHOAREYOU refers to has already been answered with
+   a handshake (rc_hs_sent), the step sends no datagram at all - in particular no second handshake -,
+   fails the request (RequestFailed for an application request) and does not put it back; no session
+   is created. *)
+Theorem C03_single_handshake_per_request :
+  forall c h from n idn seq cd now d h1 na r,
+  let s0 := tick c h now d in
+  nmap_get n (nmap (hs s0)) <> None ->
+  ar_remove_by_nonce (hs s0) n = (h1, Some (na, r)) -> snd na = from -> rc_hs_sent r = true ->
+  let res := step c h (EvInbound from (PWho n idn seq cd)) now d in
+  (forall o, In o (snd res) -> In o (outs s0) \/ failed_out o) /\
+  (rc_ext r = true -> In (OEvent (HRequestFailed (rc_rid r) ERR_INVALID_REMOTE_PACKET)) (snd res)) /\
+  fst res = hs (fail_request c (if fix_d6 c then remove_expected (with_hs s0 h1) from else with_hs s0 h1) r
+                  ERR_INVALID_REMOTE_PACKET true) /\
+  SessD h (fst res).
+Proof. exact single_handshake_per_request. Qed.
+Print Assumptions C03_single_handshake_per_request.
+
+(* ------------------------------------------------------------------------------------------ *)
+(* examples (Proofs/HandlerB_Examples.v): replay of an accepted handshake; WHOAREYOU with an unknown
+   nonce / from another address / answered once / answered twice *)
+Example C03_example_replay :
+  ChallUniq h_challenged /\
+  step ex_cfg h_challenged (EvInbound 100 pkt_handshake) 12 nod =
+    (fst (run ex_cfg init_state [ev_unknown; ev_whoareyou; ev_handshake]),
+     [OEvent (HEstablished enr7 100 true); OEvent (HRequest (7, 100) 9 0)]) /\
+  step ex_cfg (fst (run ex_cfg init_state [ev_unknown; ev_whoareyou; ev_handshake])) (EvInbound 100 pkt_handshake) 13 nod =
+    (fst (run ex_cfg init_state [ev_unknown; ev_whoareyou; ev_handshake]), []).
+Proof. split; [exact (proj2 h_challenged_ChallOK) | split; [exact handshake_step | exact handshake_replayed]]. Qed.
+Print Assumptions C03_example_replay.
+
+Example C03_example_whoareyou :
+  nmap_get (4, 4) (nmap h_inflight) = Some (8, 200) /\
+  step ex_cfg h_inflight (EvInbound 200 (PWho (4, 5) 12 0 6)) 11 (dk [(5, 5, 61, 9)]) = (h_inflight, []) /\
+  snd (step ex_cfg h_inflight (EvInbound 201 (PWho (4, 4) 12 0 6)) 11 (dk [(5, 5, 61, 9)])) = [] /\
+  (exists h1 r, ar_remove_by_nonce h_hs_sent (5, 5) = (h1, Some ((8, 200), r)) /\ rc_hs_sent r = true /\
+                rc_ext r = true /\ rc_rid r = 20) /\
+  step ex_cfg h_hs_sent (EvInbound 200 (PWho (5, 5) 13 0 8)) 12 (dk [(6, 6, 62, 10)]) =
+    (init_state, [OEvent (HRequestFailed 20 ERR_INVALID_REMOTE_PACKET)]).
+Proof.
+  split; [exact inflight_nonce | split; [exact who1_unknown_nonce | split; [exact who1_wrong_source |
+  split; [exact hs_sent_request | exact who2_step]]]].
+Qed.
+Print Assumptions C03_example_whoareyou.
